@@ -1001,6 +1001,10 @@ class HistogramBase(abc.ABC):
             else:
                 adapted_self = self + 0 * other
                 adapted_other = 0 * self + other
+                with np.errstate(invalid="ignore"):
+                    if np.any(adapted_self._missed - adapted_other._missed < 0):
+                        # The bins are checked by the setter below, the missed weights are not
+                        raise ValueError("Cannot have negative frequencies.")
                 self._coerce_dtype(other.dtype)
                 self.frequencies = (
                     adapted_self.frequencies - adapted_other.frequencies
